@@ -23,6 +23,14 @@ def plan(plan, tier, seed):
             plan.verus.append(VerusUnit(uname, build(), {fn: on}, ["canary_" + uname]))
         except AnchorLost as e:
             plan.anchor_errors.append((on, str(e)))
+    np_ = "C10.verus.paragraph_element.inline_code_is_one_expression"
+    plan.ob(np_, "verus", "proved", functions=["src/interpreter/src/mechdown.rs: paragraph_element (whole body)"],
+            what="inside prose only an inline `{{..}}` element evaluates anything: exactly one EXPRESSION (no statement: nothing can be defined or assigned), whose failure is displayed as the empty value and never raised; every other paragraph element evaluates nothing and is reported as not executable (the prose arms of section_element ignore that)")
+    try:
+        plan.verus.append(VerusUnit("c10_prose", vC10.prose_unit(text), {"paragraph_element": np_}, ["canary_c10_prose"]))
+    except AnchorLost as e:
+        plan.anchor_errors.append((np_, str(e)))
+    plan.dropped.append(vC10.paragraph_element_fn.__doc__.strip())
     # syntactic pass over the prose arms (labelled: backend syntactic, level bounded; never counted as proved)
     try:
         seen = {}
@@ -43,5 +51,5 @@ def plan(plan, tier, seed):
         "a fence holds at least one code item (`block.code.last().unwrap()` would panic otherwise): precondition of the arm's contract, a property of the grammar (`mech-code+`), not verified",
         "Interpreter::new(id) builds an interpreter with an empty history; set_functions replaces the function table only",
     ]
-    plan.undecided_clauses += ["C10: which parts of a document are prose, code or fences, and which name a fence has, is decided by the Mechdown PARSER (out of reach, see C09); inline `{{..}}` evaluation inside paragraphs (paragraph_element: an expression evaluated on the document's interpreter, errors swallowed) is not under contract; prose inertness is checked only syntactically (arms name no evaluator); the Float / Mika arms; that different fence names get different namespace ids (hash_str)"]
+    plan.undecided_clauses += ["C10: which parts of a document are prose, code or fences, and which name a fence has, is decided by the Mechdown PARSER (out of reach, see C09); that evaluating an expression cannot change a variable is a property of expression() (not under contract here); prose inertness is checked only syntactically (arms name no evaluator); the Float / Mika arms; that different fence names get different namespace ids (hash_str)"]
     plan.level = "proof"
